@@ -60,6 +60,11 @@ def _quant(self: Interp, node, st, kind, real=False):
         st.env = saved
     body = to_z3(body)
     if kind == "forall":
+        if z3.is_quantifier(body) and body.is_forall() and body.num_patterns() == 0:
+            # forall i: g(i) -> forall e: B   ==   forall i, e: g(i) -> B   (one instantiation step for the solver)
+            inner = [z3.Const(fresh_name(body.var_name(i)), body.var_sort(i)) for i in range(body.num_vars())]
+            ib = z3.substitute_vars(body.body(), *reversed(inner))
+            return z3.ForAll(vars_ + inner, z3.Implies(to_z3(guard), ib))
         return z3.ForAll(vars_, z3.Implies(to_z3(guard), body))
     return z3.Exists(vars_, z3.And(to_z3(guard), body))
 
